@@ -42,6 +42,8 @@ def layout_form(L, variant=0, seed=0):
         add(type="text", name="ref_hint", label="RH", hint=f"hint {t} end", guidance_hint=f"guide {t}")
         add(type="select_one L", name="ref_filter", label="RF", choice_filter=f"grp = {t}")
         add(type="select_one L", name="ref_seed", label="RS", parameters=f"randomize=true seed={t}")
+        # a select_one_external's filter is a predicate over a secondary instance too (its list arrives in itemsets.csv)
+        add(type="select_one_external X", name="ref_extfilter", label="RX", choice_filter=f"state = {t}")
         add(type="calculate", name="ref_two", calculation=f"{t} + ${{referrer}} + {t}")
         add(type="calculate", name="ref_inst", calculation=f"instance('L')/root/item[name = {t}]/label")
         add(type="text", name="ref_lastsaved", label="RL", default="${last-saved#target}")
@@ -63,6 +65,12 @@ def layout_form(L, variant=0, seed=0):
             # several indexed-repeat() calls in one expression, with plain references before, between and after them
             add(type="calculate", name="ref_ir3", calculation=f"indexed-repeat({t}, ${{{rep}}}, 1) + indexed-repeat({t}, ${{{rep}}}, 2) + {t}")
             add(type="calculate", name="ref_ir4", calculation=f"{t} + indexed-repeat({t}, ${{{rep}}}, 1) + {t} + indexed-repeat({t}, ${{{rep}}}, 2)")
+            # two and three (repeat, index) pairs: every repeat argument is absolute
+            allreps = [n for k, n in chain if k == "r"]
+            if len(allreps) >= 2:
+                add(type="calculate", name="ref_ir5", calculation=f"indexed-repeat({t}, ${{{allreps[-2]}}}, 1, ${{{allreps[-1]}}}, 2)")
+            if len(allreps) >= 3:
+                add(type="calculate", name="ref_ir6", calculation=f"indexed-repeat({t}, ${{{allreps[-3]}}}, 1, ${{{allreps[-2]}}}, 2, ${{{allreps[-1]}}}, 1)")
         for k in reversed(L["rb"]):
             end(k)
 
@@ -101,7 +109,8 @@ def layout_form(L, variant=0, seed=0):
     survey = {"name": "survey", "header": cols, "rows": [[r.get(c) for c in cols] for r in rows]}
     choices = {"name": "choices", "header": ["list_name", "name", "label", "grp"],
                "rows": [["L", "l1", "One", "1"], ["L", "l2", "Two", "2"]]}
-    return {"sheets": [survey, choices]}
+    ext = {"name": "external_choices", "header": ["list_name", "name", "label", "state"], "rows": [["X", "x1", "X1", "1"], ["X", "x2", "X2", "2"]]}
+    return {"sheets": [survey, choices, ext]}
 
 
 def error_forms():
